@@ -449,7 +449,7 @@ public:
         std::array<long int, Dim> margin;
 
         for(long int idxDim = 0 ; idxDim < Dim ; ++idxDim){
-            margin[idxDim] = std::abs(minBoxCorner[idxDim]) * (1 << inLevel);
+            margin[idxDim] = std::abs(minBoxCorner[idxDim]) * (1L << inLevel);
         }
 
         auto coordToFound = spaceSystem.getBoxPosFromIndex(inIndexToFound);
